@@ -251,7 +251,7 @@ def step_valuesig(repo, out, consts):
 def gen_rust_glue(rows, out):
     """harness/src/gen_sv.rs: printer SymbolicValue -> Coq term and builder (tag, attrs, kids) -> RSVD,
     generated from the same enum definition so that a new or changed constructor reaches both sides."""
-    r = "// GENERATED by tools/tr_valuesig.py from src/vm/value/mod.rs -- do not edit\n"
+    r = "// GENERATED by tools/tr_valuesig.py from src/vm/value/mod.rs -- do not edit\n#![allow(unused_mut, clippy::all)]\n"
     r += "use std::sync::Arc;\nuse ethnum::U256;\nuse storage_layout_extractor::vm::value::{known::KnownWord, BoxedVal, PackedSpan, SymbolicValue, SymbolicValueData as SVD};\n"
     r += "use crate::util::Ids;\n\n"
     r += "pub fn sv_term<A: Clone + PartialEq>(v: &SymbolicValue<A>, ids: &mut Ids) -> String {\n    svd_term(v.data(), ids)\n}\n\n"
